@@ -78,7 +78,7 @@ S1, S2 = b"\x11" * 32, b"\x22" * 32
 GRID_KEYS = [["prod-use1", S1, "edge-1"], ["prod-use1-v2", S2, "edge-1"]]
 
 MODES = ["allow", "require"]
-SHAPES = ["gate_only", "gate_inner", "chain_outer"]
+SHAPES = ["gate_only", "gate_inner", "chain_outer", "two_gates"]
 INNERS = ["accept_auth", "accept_unauth", "accept_spoof_claim", "reject_value", "reject_invalid", "reject_missing",
           "reject_permission", "unavailable"]
 PROOFS = ["valid", "valid_rotated", "absent", "empty", "garbage", "bad_charset", "expired", "not_yet_valid", "bad_mac",
@@ -188,6 +188,9 @@ def _expect(mode: str, shape: str, inner: str, verified: bool) -> dict:
         # allow mode, unproven, no inner: exactly an anonymous request
         return {"outcome": "ctx", "identity": {"domain": None, "authenticated": False, "principal": None, "claims": {}},
                 "inner_calls": 0, "other_calls": 0}
+    if shape == "two_gates":
+        # the group under test behaves exactly as it does alone (the front group never authenticates anyone)
+        return _expect(mode, "gate_inner", inner, verified)
     kind, val = _INNER_RESULT[inner]
     if kind == "ctx":
         return {"outcome": "ctx", "identity": val, "inner_calls": 1, "other_calls": 0}
@@ -255,6 +258,14 @@ def _compose(case: dict, gate: PreconditionGate, ilog: list[str]) -> Any:
     inner = _make_inner(case["inner"], ilog)
     if shape == "gate_inner":
         return require_all(gate, inner)
+    if shape == "two_gates":
+        # two AND groups behind an OR, each with its *own* gate: the first group's gate belongs to another proxy
+        # (allow mode, foreign secret: it lets everything through unverified) and its credential is always rejected,
+        # so the chain falls through to the group under test — whose own gate must still decide on its own
+        front_gate = proxy_proof_gate(ProxyProofConfig(mode="allow", origin_id=case["origin"], skew_seconds=case["skew"],
+                                                       secrets={"front-proxy": (b"\x77" * 32, "front")}))
+        front = _make_inner("reject_value", ilog, name="front")
+        return chain_authenticate(require_all(front_gate, front), require_all(gate, inner))
     other = _make_inner("accept_carol", ilog, name="other")
     return chain_authenticate(require_all(gate, inner), other)
 
